@@ -14,9 +14,9 @@ theorem maskOff_zero (m : Nat) : maskOff (m &&& RCP_MODEMASK) 0 = m % 4096 := by
   exact Nat.and_two_pow_sub_one_eq_mod (m % 4096) 12 ▸ (by simp)
 
 /-- the node at the root of any sibling tree is not disturbed by the trees that follow it -/
-theorem recvKids_lookup (o : Opts) (fs : FS) (q : Path) (kids : List (Str × Tree)) (n : Str) (k : Tree)
+theorem recvKids_lookup (o : Opts) (ss : Bool) (fs : FS) (q : Path) (kids : List (Str × Tree)) (n : Str) (k : Tree)
     (hm : (n, k) ∈ kids) (hd : kids.Pairwise (fun a b => a.1 ≠ b.1)) :
-    ∃ fs0, recvKids o fs q kids (q ++ [n]) = recvTree o fs0 q n k (q ++ [n]) := by
+    ∃ fs0, recvKids o ss fs q kids (q ++ [n]) = recvTree o ss fs0 q n k (q ++ [n]) := by
   induction kids generalizing fs with
   | nil => cases hm
   | cons nk r ih =>
@@ -36,37 +36,37 @@ theorem recvKids_lookup (o : Opts) (fs : FS) (q : Path) (kids : List (Str × Tre
     · exact ih _ hm' (List.pairwise_cons.1 hd).2
 
 mutual
-theorem recvTree_parent (o : Opts) (fs : FS) (q : Path) (n : Str) (t : Tree) (pm : Nat) (tm : Option Time)
-    (h : fs q = some (.dir pm tm)) : ∃ tm', recvTree o fs q n t q = some (.dir pm tm') := by
+theorem recvTree_parent (o : Opts) (ss : Bool) (fs : FS) (q : Path) (n : Str) (t : Tree) (pm : Nat) (tm : Option Time)
+    (h : fs q = some (.dir pm tm)) : ∃ tm', recvTree o ss fs q n t q = some (.dir pm tm') := by
   have hne : q ≠ q ++ [n] := by intro e; have := congrArg List.length e; simp at this
   have hb : fs.bumpDir q q = some (.dir pm none) := bumpDir_self_dir h
   cases t with
   | file m t a d =>
     exact ⟨none, by simp only [recvTree]; rw [set_other _ _ _ _ hne, hb]⟩
   | dir m t a kids =>
-    have hk : recvKids o ((fs.bumpDir q).set (q ++ [n]) (recvDirNode o fs q n m)) (q ++ [n]) kids q =
+    have hk : recvKids o ss ((fs.bumpDir q).set (q ++ [n]) (recvDirNode o fs q n m)) (q ++ [n]) kids q =
         some (.dir pm none) := by
-      rw [recvKids_other o _ (q ++ [n]) kids q hne (fun n' _ _ hp => by
+      rw [recvKids_other o ss _ (q ++ [n]) kids q hne (fun n' _ _ hp => by
         have := hp.length_le; simp at this; omega)]
       rw [set_other _ _ _ _ hne, hb]
     refine ⟨none, ?_⟩
     simp only [recvTree]
-    generalize recvKids o ((fs.bumpDir q).set (q ++ [n]) (recvDirNode o fs q n m)) (q ++ [n]) kids = g at hk ⊢
+    generalize recvKids o ss ((fs.bumpDir q).set (q ++ [n]) (recvDirNode o fs q n m)) (q ++ [n]) kids = g at hk ⊢
     split
     · unfold setMtimeAt
       cases hg : g (q ++ [n]) with
       | none => exact hk
       | some nd => simp only []; rw [set_other _ _ _ _ hne, hk]
     · exact hk
-theorem recvKids_parent (o : Opts) (fs : FS) (q : Path) (kids : List (Str × Tree)) (pm : Nat)
-    (tm : Option Time) (h : fs q = some (.dir pm tm)) : ∃ tm', recvKids o fs q kids q = some (.dir pm tm') := by
+theorem recvKids_parent (o : Opts) (ss : Bool) (fs : FS) (q : Path) (kids : List (Str × Tree)) (pm : Nat)
+    (tm : Option Time) (h : fs q = some (.dir pm tm)) : ∃ tm', recvKids o ss fs q kids q = some (.dir pm tm') := by
   cases kids with
   | nil => exact ⟨tm, h⟩
   | cons nk r =>
     obtain ⟨n, k⟩ := nk
-    obtain ⟨tm1, h1⟩ := recvTree_parent o fs q n k pm tm h
+    obtain ⟨tm1, h1⟩ := recvTree_parent o ss fs q n k pm tm h
     simp only [recvKids]
-    exact recvKids_parent o _ q r pm tm1 h1
+    exact recvKids_parent o ss _ q r pm tm1 h1
 end
 
 
